@@ -217,3 +217,38 @@ def run_sqdtype(ctx, col, modules, rule="R-SQDTYPE"):
          "overflow; np.linalg.norm promotes to float (zero expected, examples kept)", find_sqdtype, "pairwise distances are exact for integer clouds",
          lambda n, nm: f"`{norm_src(n)[:70]}` squares `{nm}` in the dtype of the points: for an int16 cloud with an extent above 181 the squares overflow and the 'distances' that drive the "
                        f"spanning tree are wrong (the tree is no longer minimal)", "sqdtype")
+
+
+def find_clip(fn) -> list:
+    """parent ids clipped at -1 (`(pid - base).clip(lower=-1)`, np.maximum(pid - base, -1)): a shifted parent id below -1 is a legitimate value, not a root marker"""
+    if isinstance(fn, ast.Lambda):
+        return []
+    out = []
+    for c in ast.walk(fn):
+        if not isinstance(c, ast.Call):
+            continue
+        last = (dotted(c.func) or "").rsplit(".", 1)[-1] if dotted(c.func) else (c.func.attr if isinstance(c.func, ast.Attribute) else "")
+        if last not in ("clip", "maximum", "fmax"):
+            continue
+        vals = list(c.args) + [k.value for k in c.keywords]
+        has_m1 = any(isinstance(v, ast.UnaryOp) and isinstance(v.op, ast.USub) and isinstance(v.operand, ast.Constant) and v.operand.value == 1 for v in vals)
+        about_pid = "pid" in norm_src(c)
+        if has_m1 and about_pid:
+            out.append((c, "pid"))
+    return out
+
+
+def run_clip(ctx, col, modules, rule="R-CLIP"):
+    col.rule(rule, "re-based parent ids are not clipped at -1: after subtracting the first root's id a parent id below that root's id is negative and still a real parent; only the rows that "
+             "were roots before get -1 (mask taken before the shift) (zero expected)", floor=0)
+    n = 0
+    for d in ctx.repo.all_defs():
+        if d.module.name not in modules or d.is_lambda:
+            continue
+        for node, _ in find_clip(d.node):
+            n += 1
+            col.bad(rule, d.qualname, d.loc(node), "a negative re-based parent id stays a parent", f"`{norm_src(node)[:80]}` turns every re-based parent id below -1 into the root marker: in a file whose first "
+                    f"root does not carry the smallest id (root listed with the largest id, a forest whose later tree has smaller ids) the nodes hanging on a smaller id silently become extra roots",
+                    stmt="clip", definite=True)
+    if not n:
+        col.ok(rule, "swcgeom.core.swc_utils.normalizer", "swcgeom/core/swc_utils/normalizer.py:1", "a negative re-based parent id stays a parent", "no clip / maximum at -1 over a parent column", stmt="clip")
